@@ -68,7 +68,7 @@ def runUndo {Sym : Type} (c : Cfg) : List (Done Sym) â†’ Coder â†’ Option (Cfg Ã
     | .ok z => runUndo (withP c old) rest z
     | .error _ => none
 
-/-- every step of the schedule is admitted by the crate's static assertions, and every model
+/-- every step of the schedule is allowed by the crate's static assertions, and every model
     is well-formed at the precision it is used with -/
 def StepsOk {Sym : Type} (c : Cfg) : List (Step Sym) â†’ Prop
   | [] => True
